@@ -514,4 +514,19 @@ theorem calls_bounded (cfg : LexCfg) (text : List Char) (pos : Nat) {t : Token} 
   have := nextTok_progress cfg text pos h
   omega
 
+/-! ## the hypotheses are satisfiable: concrete calls on the ASCII configuration -/
+
+-- `a +` from offset 1: the blank is skipped, `+` is the token, `lexpos` moves from 1 to 3
+example : nextTok asciiCfg ['a', ' ', '+'] 1 = .tok ⟨.op ['+'], .text ['+'], 2⟩ 3 := by decide +kernel
+-- from the middle of a word nothing matches: `\b` looks behind `lexpos`
+example : nextTok asciiCfg ['a', 'b'] 1 = .err (.lexical ['b'] 1) := by decide +kernel
+-- an ill-formed escape: reported with its text, at its own position inside the token
+example : nextTok asciiCfg ['x', ' ', '"', 'a', '\\', 'U', '0', '0', '1', '1', '0', '0', '0', '0', '"'] 1 =
+    .err (.lexical ['\\', 'U', '0', '0', '1', '1', '0', '0', '0', '0'] 4) := by decide +kernel
+example : nextTok asciiCfg ['a'] 1 = .eof := by decide +kernel
+example : lexFrom asciiCfg ['a', ' ', '+'] 1 = .ok [⟨.op ['+'], .text ['+'], 2⟩] := by decide +kernel
+-- a numeral beyond the digit limit (limit 3 here)
+example : lexAll { asciiCfg with maxDigits := 3 } ['1', '2', '3', '4'] = .error (.lexical ['1', '2', '3', '4'] 0) := by
+  decide +kernel
+
 end Yaql.Props.C03Lex
